@@ -393,7 +393,8 @@ fn op_kind(name: &str) -> &'static str {
         "proj" | "filter" | "window" => "stream",
         "order" | "agg" | "hashagg" | "sortagg" | "topn" | "copy_to" => "block",
         "limit" => "limit",
-        "join" | "hashjoin" | "mergejoin" => "join",
+        "join" | "hashjoin" => "join",
+        "mergejoin" => "mjoin",
         "insert" | "delete" => "dml",
         _ => "other",
     }
@@ -442,8 +443,8 @@ fn model_tree(nodes: &[Node], i: usize, fault: &Option<Fault>) -> String {
             let off = n.params[1].parse::<usize>().unwrap_or(0);
             format!("(limit {} {ft} {lim} {off} {})", n.id, kid(0))
         }
-        "join" => format!(
-            "(join {} {ft} {} {} {outs} {} {})",
+        k @ ("join" | "mjoin") => format!(
+            "({k} {} {ft} {} {} {outs} {} {})",
             n.id,
             nodes[n.kids[0]].outs.len(),
             nodes[n.kids[1]].outs.len(),
@@ -612,6 +613,16 @@ fn run_case(ctx: &mut Ctx, cid: usize, case: &Case, thorough: bool, out: &mut Ve
         "ops": nodes.iter().map(|n| n.name.clone()).collect::<Vec<_>>(),
         "outs": nodes.iter().map(|n| n.outs.clone()).collect::<Vec<_>>(),
         "mkdirs": nf.trace.mkdirs, "publishes": nf.trace.publishes,
+        // per node: [label of its parent operator (join type included), which child it is]
+        "parents": nodes.iter().map(|n| {
+            match nodes.iter().find(|p| p.kids.contains(&n.id)) {
+                Some(p) => {
+                    let label = if op_kind(&p.name) == "join" || op_kind(&p.name) == "mjoin" { format!("{}:{}", p.name, p.params.first().cloned().unwrap_or_default()) } else { p.name.clone() };
+                    json!([label, p.kids.iter().position(|k| *k == n.id).unwrap()])
+                }
+                None => json!(["root", 0]),
+            }
+        }).collect::<Vec<_>>(),
         "tables_eq_pre": nf.tables == pre, "delta": (total_rows(&nf.tables) - total_rows(&pre)).abs()}));
     // 3. faults
     let mut faults: Vec<Fault> = vec![];
